@@ -4,6 +4,7 @@ import FV.IoAsyncRecv
 import FV.IoSendSeq
 import FV.IoRecvRetry
 import FV.IoAsyncSeq
+import FV.IoAsyncLoop
 /-! Model side of the IO suites (`S`, `R`, `AS`, `AR`, `AP` lines). -/
 open FV
 namespace Drv
@@ -173,6 +174,13 @@ def runAR (t : Ty) (max : Nat) (script : List SEv) (nrecv : Nat) (stream : Bytes
   let tail := stream.length + nrecv + 4
   let evs := toAREvs script tail
   let (outs, evs') := arecvLoopD t nrecv evs ⟨0, cap, 0, []⟩ stream []
+  -- the loop `C08_async_receiver_delivers` is about (`arecvLoop`) must tell the same story up to the first read error (where it stops)
+  let shortOf (x : String) : String := match x.splitOn ":" with | "msg" :: z :: _ => "msg:" ++ z | "parse" :: _ => "parse" | _ => x
+  let mine := (outs.takeWhile fun x => !x.startsWith "read").map shortOf
+  let theirs := ((arecvLoop t.dict nrecv evs ⟨0, cap, 0, []⟩ stream).takeWhile fun o => match o with | .readErr _ => false | _ => true).map fun o => match o with
+    | .msg bs => s!"msg:{bs.length}" | .parse _ => "parse" | .readErr _ => "read" | .oom => "oom" | .closed => "closed" | .blocked => "BLOCKED" | .fault => "PANIC"
+  let k := Nat.min mine.length theirs.length
+  let outs := if mine.take k == theirs.take k then outs else "MODEL-INCONSISTENT" :: outs
   s!"{joinC outs} reads={evs.length - evs'.length}"
 
 /-- the composed system: everything sent is delivered in order, then `Closed` -/
